@@ -284,6 +284,11 @@ static void DecodeAdr(
 
     AdrCnt = 0;
     AdrOK  = False;
+
+    /* ImmVal() may read both words although a short immediate fills only
+       the first: do not let it see the operand of an earlier statement */
+
+    AdrVals[0] = AdrVals[1] = 0;
     StrCompMkTemp(&AdrPart, AdrPartStr, sizeof(AdrPartStr));
 
     /* I. Speicheradresse */
